@@ -157,7 +157,7 @@ static inline BatchCfg gen_batch_cfg(const Table& t, const std::vector<size_t>& 
 struct ViewRec { const uint8_t* p; size_t n; std::string expect; };
 
 static inline void run_batch_reader(carquet_reader_t* r, const Table& t, const BatchCfg& cfg, const char* where, Polarity& pol, Transcript* tr, std::vector<ViewRec>* views,
-                                    std::vector<carquet_status_t>* statuses = nullptr) {
+                                    std::vector<carquet_status_t>* statuses = nullptr, bool* error_seen = nullptr) {
     carquet_batch_reader_config_t bc; carquet_batch_reader_config_init(&bc);
     bc.batch_size = cfg.batch_size; bc.num_threads = cfg.num_threads;
     std::vector<const char*> names; std::vector<std::string> keep;
@@ -165,6 +165,7 @@ static inline void run_batch_reader(carquet_reader_t* r, const Table& t, const B
     else if (cfg.proj_mode == 2) { for (auto c : cfg.cols) keep.push_back(t.cols[(size_t)c].name); for (auto& s : keep) names.push_back(s.c_str()); bc.column_names = names.data(); bc.num_column_names = (int32_t)names.size(); }
     carquet_error_t err = CARQUET_ERROR_INIT;
     carquet_batch_reader_t* br = cq::batch_reader_create(r, &bc, &err);
+    if (!br && error_seen) { *error_seen = true; SIM_CHECK(err.code != CARQUET_OK, "error_contract.code_ok_on_failure", "batch_reader_create returned NULL with error.code == OK"); return; }
     SIM_CHECK(br != nullptr, "batch.create_failed", "%s: batch_reader_create failed on a valid file (%d %s)", where, (int)err.code, err.message);
     // expected stream: non-empty row groups in order
     size_t g = 0; int64_t rowpos = 0;
@@ -178,6 +179,7 @@ static inline void run_batch_reader(carquet_reader_t* r, const Table& t, const B
         if (statuses) statuses->push_back(st);
         if (tr) tr->add((uint64_t)st);
         if (st == CARQUET_ERROR_END_OF_DATA || (st == CARQUET_OK && !b)) { if (b) cq::row_batch_free(b); break; }
+        if (st != CARQUET_OK && error_seen) { *error_seen = true; if (b) cq::row_batch_free(b); cq::batch_reader_free(br); return; }
         SIM_CHECK(st == CARQUET_OK, "batch.next_failed", "%s: batch_reader_next returned %d on a valid file after %lld rows", where, (int)st, (long long)delivered);
         int64_t nrows = carquet_row_batch_num_rows(b);
         if (tr) tr->add((uint64_t)nrows);
